@@ -6,8 +6,9 @@ wait forever (defect D21, C14).
   * the channel's receiver task fails every request that is outstanding when it sees end-of-stream, queues
     `EndOfRequests` for the proxy's reader task, and ends; a request registered AFTER that is answered by nobody;
   * the proxy's reader task ends when it takes `EndOfRequests` from the queue;
-  * `RemoteProxy.send` (since fix D21) waits for the first of {the answer, the end of the reader task} and raises
-    `ConnectionResetError` in the second case; before the fix it awaited the answer alone.
+  * on a connection RESET the receiver task ends without doing either (defect D24);
+  * `RemoteProxy.send` waits for the first of {the answer, the end of the reader task (fix D21), the end of the receiver task
+    (fix D24)} and raises `ConnectionResetError` when it is not the answer; originally it awaited the answer alone.
 Everything else (framing, JSON, the socket) is not modelled.
 -/
 namespace Mosaik.Channel
@@ -21,7 +22,9 @@ deriving DecidableEq, Repr, Inhabited
 
 structure St where
   peerAlive : Bool := true
-  eofSeen : Bool := false        -- the receiver task has seen end-of-stream (and has ended)
+  abortive : Bool := false       -- the connection was reset (RST) rather than closed in order (FIN)
+  receiverDone : Bool := false   -- the channel's receiver task has ended
+  eofSeen : Bool := false        -- … on a clean end of stream: outstanding requests failed, `EndOfRequests` queued
   readerDone : Bool := false     -- the proxy's reader task has taken `EndOfRequests`
   req : Req := .none
 deriving DecidableEq, Repr, Inhabited
@@ -29,34 +32,41 @@ deriving DecidableEq, Repr, Inhabited
 inductive Act where
   | send                 -- mosaik issues a request (`step`, `get_data`, …)
   | reply                -- the simulator answers the outstanding request
-  | die                  -- the simulator's process exits / closes the connection
-  | receiverSeesEof      -- the channel's receiver task wakes up on end-of-stream
+  | die (abortive : Bool)   -- the simulator's process exits / closes the connection (in order, or by a reset)
+  | receiverWakes        -- the channel's receiver task wakes up on the end of the stream or on the reset
   | readerWakes          -- the proxy's reader task takes `EndOfRequests`
-  | sendNotices          -- `asyncio.wait` in `RemoteProxy.send` returns because the reader task is done  (fix D21)
+  | sendNotices          -- `asyncio.wait` in `RemoteProxy.send` returns because a watched task is done
 deriving DecidableEq, Repr, Inhabited
 
-/-- `fixed = true`: the code after fix D21; `false`: before (no `sendNotices`, no check at the start of `send`) -/
-def step (fixed : Bool) (s : St) : Act → Option St
+/-- `fix = 0`: the original code (`send` awaits the answer alone); `1`: after fix D21 (`send` also watches the proxy's reader
+task); `2`: after fix D24 (… and the channel's receiver task) -/
+def step (fix : Nat) (s : St) : Act → Option St
   | .send =>
     if s.req = .none ∨ s.req = .answered then
-      -- (after the fix a request issued when the reader task is already done fails at once)
-      some { s with req := if fixed && s.readerDone then .failed else .pending }
+      -- (after the fixes a request issued when a watched task is already done fails at once)
+      some { s with req := if (decide (1 ≤ fix) && s.readerDone) || (decide (2 ≤ fix) && s.receiverDone) then .failed else .pending }
     else none
   | .reply => if s.peerAlive ∧ s.req = .pending then some { s with req := .answered } else none
-  | .die => if s.peerAlive then some { s with peerAlive := false } else none
-  | .receiverSeesEof =>
-    if !s.peerAlive ∧ !s.eofSeen then some { s with eofSeen := true, req := if s.req = .pending then .failed else s.req } else none
+  | .die abortive => if s.peerAlive then some { s with peerAlive := false, abortive := abortive } else none
+  | .receiverWakes =>
+    if !s.peerAlive ∧ !s.receiverDone then
+      if s.abortive then
+        -- ConnectionResetError is not handled by `_receive_forever`: the task just ends
+        some { s with receiverDone := true }
+      else some { s with receiverDone := true, eofSeen := true, req := if s.req = .pending then .failed else s.req }
+    else none
   | .readerWakes => if s.eofSeen ∧ !s.readerDone then some { s with readerDone := true } else none
-  | .sendNotices => if fixed ∧ s.readerDone ∧ s.req = .pending then some { s with req := .failed } else none
+  | .sendNotices =>
+    if s.req = .pending ∧ ((1 ≤ fix ∧ s.readerDone) ∨ (2 ≤ fix ∧ s.receiverDone)) then some { s with req := .failed } else none
 
-def exec (fixed : Bool) : St → List Act → Option St
+def exec (fix : Nat) : St → List Act → Option St
   | s, [] => some s
-  | s, a :: as => match step fixed s a with
+  | s, a :: as => match step fix s a with
     | none => none
-    | some s' => exec fixed s' as
+    | some s' => exec fix s' as
 
 /-- a request is pending and nothing the transport or mosaik can still do will ever resolve it -/
-def Stuck (fixed : Bool) (s : St) : Prop :=
-  s.req = .pending ∧ ∀ a, a ≠ Act.send → step fixed s a = none
+def Stuck (fix : Nat) (s : St) : Prop :=
+  s.req = .pending ∧ ∀ a, a ≠ Act.send → step fix s a = none
 
 end Mosaik.Channel
